@@ -35,6 +35,16 @@ import (
 // modification of a signed message must be rejected. The converse (valid but
 // rejected) is informational only.
 //
+// Freshness contract (shared with harness/p2p/mc_c30_test.go): timeoutSec > 0
+// bounds |now - ts|; timeoutSec <= 0 DISABLES the freshness clause. Legitimate
+// callers of 0: only p2p.(*Peer).updateRemoteRelayerConsumers (a relayer
+// re-announcing the tokens of its consumers, recipient = that relayer). The
+// handshake path p2p.(*Peer).authenticateNeighbor must pass 0 < T <= 10; the
+// p2p part of this check drives it under a virtual clock and asserts that.
+// Here the contract itself is measured: every stale token (|offset| > 10 s) is
+// accepted under T=0 ("stale_tokens_accepted_with_timeout_0") and none under
+// T in {1,10} at the same offsets.
+//
 // Time: the clock cannot be frozen (clock.Now = time.Now + diff). Every call is
 // bracketed by two clock readings and repeated until both fall into the same
 // second, so the second used by AuthenticateAs is known exactly and the skew
@@ -108,6 +118,7 @@ func TestMC_C30(t *testing.T) {
 	defer c.Finish()
 	c.SetRule("full product 4 signer keys x flag{0,1} x addressed-to{R1,R2,signer's own id} x called-as{R1,R2,signer's own id} x 21 timestamp offsets (exact seconds around every timeout) x timeout{0,1,10,3600}; timestamp wrap families (now +- k*2^55 +- eps, +-2^n, k*2^64/{1e3,1e6,1e9} floor/ceil, raw fields 0,1,2^63,2^64-1, unit confusion) x the same timeouts, re-signed by the named key; every single-bit flip (1096) of 6 accepted messages under T=0 and T=10; flag-bit x other-bit double flips; lengths 0..140 x 2 paddings; 136 rotations; flag byte 0..255 unsigned and re-signed; all ordered pairs of a 12-message pool for signature and per-field transplants; 256 one-bit recipient variants; second network. A case is distinct by (timeout, called-as, offset class, message bytes with the timestamp replaced by its offset)")
 	c.Assume("crypto.Key.Verify / Sign (Ed25519 over blake3) are the trusted base for the reference predicate 'signed by the key it names'; the by-construction oracle (modified signed message must be rejected) does not use them",
+		"timeoutSec <= 0 means 'no freshness check' by contract: legitimate only for p2p updateRemoteRelayerConsumers (consumers announcement); the handshake caller authenticateNeighbor is checked by the p2p part of C30 to always pass 0 < timeoutSec <= 10",
 		"a single call of AuthenticateAs completes within one clock second in at least one of 100 attempts (otherwise the run reports broken, not a violation)")
 
 	recv, err := newMCNode(mcNet7, 0, "")
@@ -231,6 +242,12 @@ func TestMC_C30(t *testing.T) {
 			return false, false
 		}
 		c.Outcome("accept")
+		if lenOK && x.timeout <= 0 && dist > 10 {
+			c.Add("stale_tokens_accepted_with_timeout_0", 1)
+		}
+		if lenOK && x.timeout > 0 && dist <= uint64(x.timeout) && dist > 0 {
+			c.Add("aged_tokens_accepted_within_positive_timeout", 1)
+		}
 		viol := func(key, desc string) {
 			c.Outcome("ACCEPT-WRONG:" + key)
 			c.Violation(key, desc+fmt.Sprintf(" [kind=%s timeout=%d ts-now=%d]", x.kind, x.timeout, int64(ts)-r.sec), replay)
